@@ -14,7 +14,7 @@
 From Coq Require Import ZArith List Bool String Lia.
 From FV Require Import Model.PegSyntax Model.Peg Model.PegWf Model.ParserStrings Model.ParserAst Model.ParserActions
      Model.Parser Gen.Grammar Proofs.PegProofs Proofs.ParserProofs Proofs.ParserLexProofs
-     Proofs.ParserEvals Proofs.ParserRoundTrip.
+     Proofs.ParserEvals Proofs.ParserRoundTrip Proofs.ParserRoundTripEnum.
 Import ListNotations.
 Open Scope Z_scope.
 
@@ -128,24 +128,40 @@ Theorem c10_blank_gap_independence :
 Proof. exact (conj gap_inline gap_free). Qed.
 Print Assumptions c10_blank_gap_independence.
 
-(** * Stage 5. parse (render s m) = m, proved for the fragment "typedefs of base types"
-    For every list of typedef declarations
+(** * Stage 5. parse (render s m) = m, proved for the fragment "typedefs of base types and enums"
+    For every sequence of declarations, each either
         typedef <blanks> base <blanks> name <blanks> LF <blanks and line breaks>
-    (base one of the eight base-type keywords, name ANY identifier-shaped byte string, all four
-    gaps arbitrary, possibly empty, runs) preceded by arbitrary blanks and line breaks, the parser
-    model -- Grammar rule, Statement, FrugalStatement (the four failing alternatives before
-    TypeDef), TypeDef, FieldType, BaseType, BaseTypeName, Identifier, _, __, EOS (its failing
-    first alternative included), EOF, and the actions Grammar1, Statement1, TypeDef1, FieldType1,
-    BaseType1, BaseTypeName1, Identifier1 -- returns exactly the declared typedefs, in order, with
-    no comment and no annotations, and nothing else.
-    PARTIAL with respect to the property: the other declaration kinds, comments, annotations,
-    constants and the ';' / end-of-file statement terminators are not inside the proved fragment
-    (they are covered by the correspondence runs only). *)
-Theorem c10_roundtrip_partial : forall (w0 : bytes) (ds : list td_spec),
-  run_of p_wsnl w0 -> Forall td_ok ds ->
-  parse_idl (w0 ++ render_all ds) = POk (typedefs_only (map typedef_of ds)).
-Proof. exact roundtrip_typedefs. Qed.
+    or
+        enum <blanks> name <blanks/LFs> { <blanks/LFs> value* } <blanks> LF <blanks and line breaks>
+    where base is one of the eight base-type keywords, every name is ANY identifier-shaped byte
+    string (in particular names beginning with a keyword), every gap is an arbitrary -- possibly
+    empty -- run, and every enum value is spelled in one of the four ways
+        name W  |  name g , W  |  name g ; W  |  name g = g' z W  |  name g = g' z g'' , W  (or ;)
+    with z any 64-bit integer (explicit negative values included) and W blanks / line breaks
+    (a bare  name  with nothing after it only in last position), preceded by arbitrary blanks
+    and line breaks: the parser model -- from the Grammar rule down to single characters through
+    Statement, FrugalStatement (with its failing alternatives), TypeDef, Enum, EnumValue, FieldType,
+    BaseType, BaseTypeName, Identifier, IntConstant, ListSeparator, _, __, EOS (its failing first
+    alternative included), EOF, and back up through the actions Grammar1, Statement1, TypeDef1,
+    Enum1, EnumValue1, FieldType1, BaseType1, BaseTypeName1, Identifier1, IntConstant1 -- returns
+    exactly the declared typedefs and enums, each list in source order, with no comment and no
+    annotations, and nothing else; and (next theorem) the enum values carry Thrift's numbering.
+    PARTIAL with respect to the property: structs, unions, exceptions, services, scopes, constants,
+    includes, namespaces, containers, comments, doc comments, annotations and the ';' / end-of-file
+    statement terminators are not inside the proved fragment (correspondence runs only). *)
+Theorem c10_roundtrip_partial : forall (w0 : bytes) (ds : list decl_spec),
+  run_of p_wsnl w0 -> Forall decl_ok ds ->
+  parse_idl (w0 ++ render_decls ds) = POk (td_en_only (typedefs_of ds) (enums_of ds)).
+Proof. exact roundtrip_decls. Qed.
 Print Assumptions c10_roundtrip_partial.
+
+(** the enums in that result: names as declared, values = Apache Thrift's numbering of the
+    declared (optional) numbers -- the enum-numbering theorem carried through the whole parser *)
+Theorem c10_enum_numbering_end_to_end : forall e : en_spec,
+  map ev_value (en_values (enum_of e)) = thrift_numbering (map (fun v => declared (v_tail v)) (e_vs e)) (-1)
+  /\ map ev_name (en_values (enum_of e)) = map (fun v => v_c v :: v_t v) (e_vs e).
+Proof. exact enum_of_numbering. Qed.
+Print Assumptions c10_enum_numbering_end_to_end.
 
 (** * Stage 2 and the separator/comment stages: refuted on the code as it is.
     Intended statement (FieldType longest match): for every identifier x that is not a base-type
@@ -227,21 +243,29 @@ Example c10_int_const_nonvacuous :
   /\ stops p_digit [59].
 Proof. split; [vm_compute; reflexivity | split; [unfold ascii; lia | reflexivity]]. Qed.
 
-(** two typedefs satisfying the hypotheses of the round-trip theorem, in two different styles *)
+(** a typedef and an enum satisfying the hypotheses of the round-trip theorem:
+      <lf><tab>typedef i32 <sp><tab>i32x_<lf><lf><sp>enum E<lf>{ A = 5,B=2;<lf>C D=-3 F}<lf>          *)
 Example c10_roundtrip_nonvacuous :
-  let d1 := mk_td [32] [105; 51; 50] [32; 9] 105 [51; 50; 120; 95] [] [10; 32] in        (* typedef i32 <sp><tab>i32x_<lf><lf><sp> *)
-  let d2 := mk_td [] [115; 116; 114; 105; 110; 103] [] 95 [] [13] [] in                   (* typedefstring_<cr><lf> *)
-  td_ok d1 /\ td_ok d2
-  /\ parse_idl ([10; 9] ++ render_all [d1; d2])
-     = POk (typedefs_only [mktypedef None [105; 51; 50; 120; 95] (PType [105; 51; 50] None None []) [];
-                           mktypedef None [95] (PType [115; 116; 114; 105; 110; 103] None None []) []]).
+  let d1 := mk_td [32] [105; 51; 50] [32; 9] 105 [51; 50; 120; 95] [] [10; 32] in
+  let vs := [mk_ev 65 [] (T_val_sep [32] [32] 5 [] 44 []);          (* A = 5, *)
+             mk_ev 66 [] (T_val_sep [] [] 2 [] 59 [10]);            (* B=2;<lf> *)
+             mk_ev 67 [] (T_plain [32]);                            (* C<sp> *)
+             mk_ev 68 [] (T_val [] [] (-3) [32]);                   (* D=-3<sp> *)
+             mk_ev 70 [] (T_plain [])] in                           (* F *)
+  let e1 := mk_en [32] 69 [] [10] [32] vs [] [] in
+  decl_ok (D_typedef d1) /\ decl_ok (D_enum e1)
+  /\ parse_idl ([10; 9] ++ render_decls [D_typedef d1; D_enum e1])
+     = POk (td_en_only [mktypedef None [105; 51; 50; 120; 95] (PType [105; 51; 50] None None []) []]
+                       [mkenum None [69] [mkev None [65] 5 []; mkev None [66] 2 []; mkev None [67] 3 [];
+                                          mkev None [68] (-3) []; mkev None [70] (-2) []] []]).
 Proof.
-  assert (K : forall d, td_ok d <-> td_ok d) by (intros; tauto).
   split; [|split].
   - repeat split; cbn; try reflexivity; try (repeat constructor; unfold ascii; lia); try (unfold ascii; lia); try lia;
       try (unfold is_base, base_lits; cbn; repeat (first [left; reflexivity | right])).
-  - repeat split; cbn; try reflexivity; try (repeat constructor; unfold ascii; lia); try (unfold ascii; lia); try lia;
-      try (unfold is_base, base_lits; cbn; repeat (first [left; reflexivity | right])).
+  - unfold decl_ok, en_ok, evs_ok, ev_ok_l, tail_ok_l, tail_ok, is_sep, int64.
+    cbn [e_g1 e_c e_t e_w1 e_w2 e_vs e_g3 e_w v_c v_t v_tail].
+    repeat split; try reflexivity; try (repeat constructor; unfold ascii; lia); try (unfold ascii; lia); try lia;
+      try (left; reflexivity); try (right; reflexivity); try discriminate.
   - vm_compute. reflexivity.
 Qed.
 
